@@ -6,36 +6,40 @@ set_option linter.unusedSectionVars false
 set_option linter.unusedVariables false
 namespace Frappy.Lemmas.C01
 open FloatOps DType Frappy.Datatypes Frappy.Spec.C01
-open PVal (toFloat? seqItems? prevItems prevFields dictGet dictSet)
+open PVal (toFloat? seqItems? prevItems prevFields dictGet dictSet isNone given notOffered)
 
 variable {F : Type} [FloatOps F] [LawfulFloatOps F]
 
-/-- the value the parameter holds is absent or lies in the value set -/
-def PrevOK (dt : DType F) (prev : Option (PVal F)) : Prop := ∀ p, prev = some p → InSet dt p
+mutual
+/-- the shape of a value a parameter of type `dt` may hold, as far as `validate` relies on it: tuples
+have the arity of the type (at every tuple position reached through arrays and tuples).  Every value of
+the value set and everything `__call__` or `validate` returns has it. -/
+def Shaped : DType F → PVal F → Prop
+  | .array elem _ _, p => ∀ q ∈ prevItems (some p), Shaped elem q
+  | .tuple elems, p =>
+    match seqItems? p with
+    | some ps => ZipShaped elems ps
+    | none => False
+  | _, _ => True
+def ZipShaped : List (DType F) → List (PVal F) → Prop
+  | [], [] => True
+  | t :: ts, p :: ps => Shaped t p ∧ ZipShaped ts ps
+  | _, _ => False
+end
 
-theorem prevItems_inSet {elem : DType F} {lo hi : Nat} {prev : Option (PVal F)}
-    (hp : PrevOK (.array elem lo hi) prev) : ∀ p ∈ prevItems prev, InSet elem p := by
+/-- the value the parameter holds is absent or has the shape of the type (e.g. it was accepted by
+`__call__` — a driver update — or by `validate`); it need NOT lie inside the limits -/
+def PrevOK (dt : DType F) (prev : Option (PVal F)) : Prop := ∀ p, prev = some p → Shaped dt p
+
+theorem prevItems_shaped {elem : DType F} {lo hi : Nat} {prev : Option (PVal F)}
+    (hp : PrevOK (.array elem lo hi) prev) : ∀ p ∈ prevItems prev, Shaped elem p := by
   intro p hmem
   cases prev with
   | none => simp [prevItems] at hmem
   | some q =>
     have hq := hp q rfl
-    cases q <;> simp only [InSet, InSetG] at hq <;> try exact hq.elim
-    case tuple l =>
-      simp only [prevItems] at hmem
-      exact hq.1 p hmem
-
-theorem prevFields_inSet {ms : List (String × DType F)} {opt : List String} {cl : Bool} {prev : Option (PVal F)}
-    (hp : PrevOK (.struct ms opt cl) prev) :
-    (∀ kv ∈ prevFields prev, MemberInG OnGrid ms kv.1 kv.2) ∧ ((prevFields prev).map (·.1)).Nodup := by
-  cases prev with
-  | none => simp [prevFields]
-  | some q =>
-    have hq := hp q rfl
-    cases q <;> simp only [InSet, InSetG] at hq <;> try exact hq.elim
-    case dict d =>
-      simp only [prevFields]
-      exact ⟨hq.1, hq.2.1⟩
+    simp only [Shaped] at hq
+    exact hq p hmem
 
 mutual
 theorem conv_sound : ∀ (dt : DType F) (v : PVal F) (prev : Option (PVal F)) (r : PVal F),
@@ -79,8 +83,8 @@ theorem conv_sound : ∀ (dt : DType F) (v : PVal F) (prev : Option (PVal F)) (r
         · cases h
         · obtain ⟨rs, hrs, hr⟩ := map_ok h
           have hrs := mapErr_ok hrs
-          obtain ⟨h1, h2⟩ := mapPrev_ok (P := InSet elem) (Q := InSet elem)
-            (fun v p r hq h => conv_sound elem v p r hwf.1 hq h) vs _ rs (prevItems_inSet hp) hrs
+          obtain ⟨h1, h2⟩ := mapPrev_ok (P := InSet elem) (Q := Shaped elem)
+            (fun v p r hq h => conv_sound elem v p r hwf.1 hq h) vs _ rs (prevItems_shaped hp) hrs
           rw [hr]; simp only [InSet, InSetG]
           exact ⟨h1, by omega, by omega⟩
   | .tuple elems, v, prev, r, hwf, hp, h => by
@@ -101,10 +105,9 @@ theorem conv_sound : ∀ (dt : DType F) (v : PVal F) (prev : Option (PVal F)) (r
             obtain ⟨rs, hrs, hr⟩ := map_ok h
             have hrs := mapErr_ok hrs
             have hq := hp p rfl
-            have hzip : ZipInG OnGrid elems ps := by
-              cases p <;> simp only [InSet, InSetG] at hq <;> try exact hq.elim
-              all_goals simp only [seqItems?] at hps
-              case tuple l => injection hps with hps; rw [← hps]; exact hq
+            have hzip : ZipShaped elems ps := by
+              simp only [Shaped, hps] at hq
+              exact hq
             rw [hr]; simp only [InSet, InSetG]
             exact convTuple_sound elems vs (some ps) rs hwf.2 hlen' (fun l hl => by injection hl with hl; rw [← hl]; exact hzip) hrs
     | none =>
@@ -130,17 +133,19 @@ theorem conv_sound : ∀ (dt : DType F) (v : PVal F) (prev : Option (PVal F)) (r
         obtain ⟨acc, hacc, hr⟩ := map_ok h
         have hacc := mapErr_ok hacc
         simp only [beq_self_eq_true, Bool.or_true] at hcheck hacc
-        obtain ⟨a, b, c⟩ := foldFields_ok (M := fun k x => MemberInG OnGrid ms k x)
-          (fun k v r hkv => convMember_sound ms k v r hwf.2.2.2 hkv) items _ acc hacc
-        obtain ⟨p1, p2⟩ := prevFields_inSet hp
+        obtain ⟨acc0, h0, h1⟩ := structFold_ok hacc
+        have hf : ∀ k v r, convMember .validate ms k v = some (.ok r) → MemberInG OnGrid ms k r :=
+          fun k v r hkv => convMember_sound ms k v r hwf.2.2.2 hkv
+        obtain ⟨a0, b0, _⟩ := foldFields_ok (M := fun k x => MemberInG OnGrid ms k x) hf _ _ acc0 h0
+        obtain ⟨a, b, c⟩ := foldFields_ok (M := fun k x => MemberInG OnGrid ms k x) hf items _ acc h1
         rw [hr]; simp only [InSet, InSetG]
-        refine ⟨a p1, b p2, ?_⟩
+        refine ⟨a (a0 (by intro kv hkv; cases hkv)), b (b0 (by simp)), ?_⟩
         intro k hk hno
         exact c k (Or.inr (structCheck_mandatory hcheck k hk hno))
       · cases h
     · cases h
 theorem convTuple_sound : ∀ (ts : List (DType F)) (vs : List (PVal F)) (ps : Option (List (PVal F)))
-    (rs : List (PVal F)), WFList ts → vs.length = ts.length → (∀ l, ps = some l → ZipInG OnGrid ts l) →
+    (rs : List (PVal F)), WFList ts → vs.length = ts.length → (∀ l, ps = some l → ZipShaped ts l) →
     convTuple .validate ts vs ps = .ok rs → ZipInG OnGrid ts rs
   | [], vs, ps, rs, _, _, _, h => by
     simp only [convTuple] at h
@@ -150,12 +155,12 @@ theorem convTuple_sound : ∀ (ts : List (DType F)) (vs : List (PVal F)) (ps : O
   | t :: ts, [], ps, rs, _, hlen, _, h => by simp at hlen
   | t :: ts, v :: vs, some [], rs, _, _, hps, h => by
     have := hps [] rfl
-    simp only [ZipInG] at this
+    simp only [ZipShaped] at this
   | t :: ts, v :: vs, some (p :: ps), rs, hwf, hlen, hps, h => by
     simp only [convTuple] at h
     simp only [WFList] at hwf
     have hz := hps _ rfl
-    simp only [ZipInG] at hz
+    simp only [ZipShaped] at hz
     split at h
     · cases h
     · rename_i r hr
